@@ -82,10 +82,10 @@ def run_check(prop, tier='quick', seed=0, jobs=None, only=None):
             for r in pool.imap_unordered(_worker, [(prop, i, tier, seed) for i in order]):
                 outs.append(r)
     outs.sort(key=lambda r: r['unit'])
-    return finish(prop, tier, seed, mod, outs, time.time() - t0)
+    return finish(prop, tier, seed, mod, outs, time.time() - t0, partial=bool(only))
 
 
-def finish(prop, tier, seed, mod, outs, wall):
+def finish(prop, tier, seed, mod, outs, wall, partial=False):
     os.makedirs(EVID, exist_ok=True)
     os.makedirs(REPLAYS, exist_ok=True)
     known = load_known(prop)
@@ -151,7 +151,8 @@ def finish(prop, tier, seed, mod, outs, wall):
     ev = {'property_id': prop, 'tier': tier, 'seed': seed, 'level': level, 'coverage': cov,
           'assumptions': sorted(set(assumptions + getattr(mod, 'ASSUMPTIONS', []))),
           'wall_s': round(wall, 2), 'violations': len(violations)}
-    with open(os.path.join(EVID, prop + '.json'), 'w') as f:
+    # a run restricted with --only is a developer run: it must not overwrite the evidence of the full check
+    with open(os.path.join(EVID, (prop + '.json') if not partial else ('.partial_%s_%d.json' % (prop, os.getpid()))), 'w') as f:
         json.dump(ev, f, indent=1, default=str)
     for line in known_lines:
         print(line)
@@ -160,7 +161,7 @@ def finish(prop, tier, seed, mod, outs, wall):
     code = 0
     if violations:
         for i, r in enumerate(violations):
-            path = os.path.join(REPLAYS, '%s_%s_%d.json' % (prop, r['id'].replace('/', '_')[:80], i))
+            path = os.path.join(REPLAYS, '%s_%s_%d%s.json' % (prop, r['id'].replace('/', '_')[:80], i, ('_p%d' % os.getpid()) if partial else ''))
             with open(path, 'w') as f:
                 json.dump({'property': prop, 'obligation': r['id'], 'clause': r['clause'], 'kind': r['kind'],
                            'witness': r.get('witness'), 'replay': r.get('replay'), 'replayed': r.get('replayed'),
